@@ -11,11 +11,6 @@ fn greedy<T>(
 where
     T: GreedyWeight,
 {
-    if part_count < 2 {
-        partition.fill(0);
-        return Ok(());
-    }
-
     // Initialization: make the partition and record the weight of each part in another vector.
     let mut weights: Vec<_> = weights
         .into_iter()
@@ -27,6 +22,11 @@ where
             expected: partition.len(),
             actual: weights.len(),
         });
+    }
+
+    if part_count < 2 {
+        partition.fill(0);
+        return Ok(());
     }
 
     weights.sort_unstable_by(crate::partial_cmp);
